@@ -483,7 +483,18 @@ def matrix_rank(A, *a, **k):
   raise core.SymbolicRealisation('rank of singular 3x3 not modelled')
 
 
-for _n, _f in (('eigh', np_eigh), ('cholesky', cholesky), ('inv', inv), ('slogdet', slogdet),
+def np_eigvalsh(A, *a, **k):
+  return np_eigh(A, *a, **k)[0]
+
+
+def np_solve(A, b):
+  # A x = b through the modelled inverse (d <= 3); concrete arguments go to LAPACK
+  if _isobj(_conc(A)) or _isobj(_conc(b)):
+    return _np.dot(inv(A), b)
+  return _np.linalg.solve(_conc(A), _conc(b))
+
+
+for _n, _f in (('eigh', np_eigh), ('eigvalsh', np_eigvalsh), ('solve', np_solve), ('cholesky', cholesky), ('inv', inv), ('slogdet', slogdet),
                ('matrix_rank', matrix_rank), ('det', lambda A: det(A) if _isobj(_conc(A)) else _np.linalg.det(_conc(A)))):
   npproxy.install_linalg(_n, _f)
 
@@ -492,6 +503,8 @@ class _SciLinalg:
   def __getattr__(self, name):
     if name == 'eigh':
       return sp_eigh
+    if name == 'eigvalsh':
+      return lambda A, *a, **k: sp_eigh(A, *a, **k)[0]
     if name == 'pinvh':
       return pinvh
     if name == 'norm':
